@@ -48,9 +48,9 @@ const (
 	wktTimestamp  = "google/protobuf/timestamp.proto"
 )
 
-// relPaths are the module-relative paths of file 0..3 (two files share directory x, one is nested
+// relPaths are the module-relative paths of file 0..3 (two files share directory x (and a third lives in the sibling xz whose name has x as a string prefix), one is nested
 // two levels deep, one is at the module root).
-var relPaths = []string{"x/f0.proto", "x/y/f1.proto", "z/f2.proto", "f3.proto"}
+var relPaths = []string{"x/f0.proto", "x/y/f1.proto", "xz/f2.proto", "f3.proto"}
 
 // Spec is one workspace.
 type Spec struct {
